@@ -53,7 +53,7 @@ def do_case(ctx, inp):
 def run(ctx):
     n_models = (70 if ctx.quick else 900) * (3 if ctx.search else 1)
     for _ in range(n_models):
-        a, o, t = gen_valid(ctx.rng, ctx.quick)
+        a, o, t = gen_valid(ctx.rng, ctx.quick, prefix_p=0.2)
         for _ in range(3):
             A = gen_interp(ctx.rng, t, total=False, in_bounds=True, ranges=ctx.rng.random() < 0.3)
             do_case(ctx, {"ast": a, "A": {k: list(v) for k, v in A.items()}})
